@@ -22,6 +22,8 @@ def case_fn(c):
         fails = oracle.check_adaptive_run(c["model"], c["T"], c["dt"], c.get("dts"), c["vec"], method=c.get("method", "RK45"))
     elif kind == "overrides":
         fails = oracle.check_overrides(c["model"], c["ops"], c["vec"], seed=c.get("seed", 0))
+    elif kind == "readonly":
+        fails = oracle.check_read_only(c["model"], c["ops"], seed=c.get("seed", 0))
     elif kind == "outputs":
         fails = oracle.check_outputs(c["model"], c["request"], c["form"], c["vec"])
     else:
